@@ -249,9 +249,9 @@ theorem p_certificate (n : Nat) (h2 : 2 ≤ n) (h8 : n ≤ 8) (f : Array W) (hf 
   exact ⟨c, perm, h1, (result_wellformed n f c perm 0 _ (p_safe n sw hs).1 r).1, r.rel⟩
 
 /-- **C05, N** -/
-theorem n_certificate (n : Nat) (h1 : 1 ≤ n) (h8 : n ≤ 8) (f : Array W) (hf : WF n f) :
+theorem n_certificate (n : Nat) (h1 : 1 ≤ n) (h64 : n ≤ 64) (f : Array W) (hf : WF n f) :
     ∃ c mask, nCanonization n f = some (c, mask) ∧ mask < 2 ^ (n + 1) ∧ CertRel n f c (Array.range n) mask := by
-  obtain ⟨fl, hfl', hfl, _⟩ := flipsFor_facts n h1 h8
+  obtain ⟨fl, hfl', hfl, _⟩ := flipsFor_facts n h1 h64
   obtain ⟨c, mask, h, r⟩ := n_result n f hf h1 fl hfl' hfl
   exact ⟨c, mask, h, (result_wellformed n f c _ mask _ (n_safe n fl hfl).1 r).2, r.rel⟩
 
@@ -260,7 +260,7 @@ theorem npn_certificate (n : Nat) (h2 : 2 ≤ n) (h8 : n ≤ 8) (f : Array W) (h
     ∃ c perm mask, npnCanonization n f = some (c, perm, mask) ∧ IsPerm n perm ∧ mask < 2 ^ (n + 1) ∧
       CertRel n f c perm mask := by
   obtain ⟨sw, hsw, hs, _⟩ := swapsFor_facts n h2 h8
-  obtain ⟨fl, hfl', hfl, _⟩ := flipsFor_facts n (by omega) h8
+  obtain ⟨fl, hfl', hfl, _⟩ := flipsFor_facts n (by omega) (by omega)
   obtain ⟨c, perm, mask, h, r⟩ := npn_result n f hf h2 sw fl hsw hfl' hs hfl
   obtain ⟨w1, w2⟩ := result_wellformed n f c perm mask _ (npn_safe n sw fl hs hfl).1 r
   exact ⟨c, perm, mask, h, w1, w2, r.rel⟩
@@ -309,7 +309,7 @@ theorem api_npn (l : Lut) (hl : l.WF) (h8 : l.n ≤ 8) :
       · rw [h0]; omega
       · rw [h0]; exact w3
     · have h1 : 1 ≤ l.n := by omega
-      obtain ⟨c, mask, h, w2, w3⟩ := n_certificate l.n h1 h8 l.t hl
+      obtain ⟨c, mask, h, w2, w3⟩ := n_certificate l.n h1 (by omega) l.t hl
       exact ⟨⟨l.n, c⟩, Array.range l.n, mask, by simp [Dyn.npnCanonization, npn_small l.n hle, h], rfl,
         isPerm_range _, w2, w3⟩
 
